@@ -97,7 +97,7 @@ func (prop) Describe() core.Description {
 		RealComponents: []string{"go-geom root package", "xy", "xyz", "bigxy", "xy/lineintersector", "transform", "encoding/wkb", "encoding/ewkb", "wkbhex/ewkbhex", "SQL wrappers", "encoding/wkt", "encoding/geojson", "encoding/kml", "encoding/igc", "Go runtime scheduler and race detector"},
 		StubComponents: []string{"caller goroutines (seeded programs)", "io.Reader/io.Writer under stream codecs (simio, per call)"},
 		FaultKinds:     []string{"shared-argument-overlap", "same-call-on->=2-workers", "gosched-yields"},
-		Probes:         []string{"probe:hull>50pts", "probe:hull-degenerate-octagon", "probe:decoder-and-encoder-share-bytes", "probe:wkt-parse-x>=4", "probe:panic-as-result", "probe:maxprocs=1", "probe:workers>=8", "probe:shared-option-value-on->=2-workers"},
+		Probes:         []string{"probe:hull>50pts", "probe:hull-degenerate-octagon", "probe:decoder-and-encoder-share-bytes", "probe:wkt-parse-x>=4", "probe:panic-as-result", "probe:maxprocs=1", "probe:workers>=8", "probe:shared-option-value-on->=2-workers", "probe:geometry-with-layout-none-or->XYZM", "probe:refused-geometry-meets-shared-option-value"},
 	}
 }
 
@@ -278,8 +278,25 @@ func validGeom(g *mgeom.Geom, depth int) error {
 	if mgeom.Level(g.T) < 0 && g.T != mgeom.GC {
 		return fmt.Errorf("bad type %q", g.T)
 	}
-	if g.T != mgeom.GC && (g.L < 1 || g.L > 4) {
+	if g.T != mgeom.GC && (g.L < 0 || g.L > 6) {
 		return fmt.Errorf("bad layout")
+	}
+	if g.T != mgeom.GC {
+		// layout 0 (none) holds no coordinates; layouts 5 and 6 are the ones
+		// the IGC decoder produces and most encoders refuse
+		bad := false
+		for _, pp := range g.P {
+			for _, p := range pp {
+				for _, c := range p {
+					if len(c) != mgeom.Stride(g.L) || g.L == 0 {
+						bad = true
+					}
+				}
+			}
+		}
+		if bad {
+			return fmt.Errorf("coordinate width does not match the layout")
+		}
 	}
 	if g.T == mgeom.GC && (g.L < 0 || g.L > 4) {
 		return fmt.Errorf("bad layout")
@@ -818,6 +835,16 @@ func sortStrings(s []string) {
 }
 
 func reach(res *core.Result, c *Call, items []*item) {
+	for _, ai := range c.A {
+		if it := items[ai]; it.kind == "g" && it.g != nil {
+			if _, isGC := it.g.(*geom.GeometryCollection); !isGC && (it.g.Layout() == geom.NoLayout || it.g.Layout() > geom.XYZM) {
+				res.Count("probe:geometry-with-layout-none-or->XYZM", 1)
+				if strings.Contains(c.Fn, "shared-") {
+					res.Count("probe:refused-geometry-meets-shared-option-value", 1)
+				}
+			}
+		}
+	}
 	if c.Fn != "xy.ConvexHullFlat" && c.Fn != "xy.ConvexHull" {
 		return
 	}
@@ -936,6 +963,9 @@ func (g *gen) geomOfType(t string) *mgeom.Geom {
 		return (&mgeom.Geom{T: t, L: 0}).Norm()
 	}
 	l := 1 + g.r.Intn(4)
+	if g.r.Chance(0.05) {
+		l = 5 // a layout the text and binary encoders refuse: their error paths run next to successful calls
+	}
 	cfg := g.cfg
 	cfg.ClosedRings = g.r.Chance(0.7)
 	m := cfg.Gen(g.r, t, l, 0)
@@ -1120,6 +1150,22 @@ func (prop) Generate(r *prng.Rand, phase string) any {
 			c.A = append(c.A, g.argFor(k))
 		}
 		s.Calls = append(s.Calls, c)
+		if strings.Contains(f.name, "shared-") && len(f.kinds) == 2 && f.kinds[0] == "g" && r.Chance(0.3) {
+			// the same long-lived option value also meets a geometry that the
+			// encoder refuses (a layout beyond XYZM, or none): its error path
+			// runs next to the successful calls
+			bad := Arg{K: "g"}
+			if r.Chance(0.3) {
+				bad.G = (&mgeom.Geom{T: mgeom.LS, L: 0}).Norm()
+			} else {
+				bad.G = g.cfg.Gen(r, mgeom.LS, 5, 0)
+			}
+			if items, err := buildPool([]Arg{bad}); err == nil {
+				g.s.Pool = append(g.s.Pool, bad)
+				g.pool = append(g.pool, items[0])
+				s.Calls = append(s.Calls, Call{Fn: f.name, A: []int{len(g.pool) - 1, c.A[1]}, I: c.I, X: c.X})
+			}
+		}
 	}
 	nw := r.Range(2, 4)
 	if phase == "plain" || r.Chance(0.3) {
